@@ -979,6 +979,15 @@ class Engine:
             return i       # keeps `arr[i]` as the quantifier trigger instead of arr[If(i < 0, ...)]
         return z3.If(i < 0, i + n, i)
 
+    @staticmethod
+    def _subterms(t, limit=200):
+        out, todo = [], [t]
+        while todo and len(out) < limit:
+            x = todo.pop()
+            out.append(x)
+            todo.extend(x.children())
+        return out
+
     def known_nonneg(self, i):
         nn = getattr(self, 'nonneg_bound', None)
         if z3.is_int_value(i):
